@@ -232,6 +232,11 @@ func write(req *protocol.Request, w network.Writer, usingProxy bool) error {
 	if len(body) != 0 || !req.Header.IgnoreBody() {
 		hasBody = true
 		req.Header.SetContentLength(len(body))
+	} else {
+		// no body is sent: whatever an earlier write of this request object derived from
+		// its body then (Content-Length, Transfer-Encoding: chunked) does not frame this one
+		req.Header.SetContentLength(0)
+		req.Header.SetContentLengthBytes(nil)
 	}
 
 	header := req.Header.Header()
